@@ -131,3 +131,26 @@ Theorem chunked_overrides_length k sl h cy b h' r :
 Proof.
   intros Hl Hc. unfold msg_stage. cbn [m_phase m_carry]. rewrite Hl, Hc. reflexivity.
 Qed.
+
+(* ------------------------------------------------------------------------ *)
+(* The coding name is matched whatever the case of the header name, the case
+   of the value and the blanks around the value. *)
+Lemma bytes_eqb_refl : forall l, bytes_eqb l l = true.
+Proof. induction l as [|x l IH]; [reflexivity|]. cbn. rewrite N.eqb_refl. exact IH. Qed.
+
+Lemma dget_dset_same {V} : forall (d : list (bytes * V)) k v, dget (dset d k v) k = Some v.
+Proof.
+  induction d as [|[k' v'] d IH]; intros k v; cbn.
+  - rewrite bytes_eqb_refl. reflexivity.
+  - destruct (bytes_eqb k k') eqn:E; cbn.
+    + rewrite bytes_eqb_refl. reflexivity.
+    + rewrite E. apply IH.
+Qed.
+
+Theorem chunked_name_value_folded h name value :
+  lowerk name = s_te -> value <> [] ->
+  te_chunked (hset h name value) = bytes_eqb (lowerk (strip ws_l1 value)) s_chunked.
+Proof.
+  intros Hn Hv. unfold te_chunked, hset, hget. rewrite Hn, dget_dset_same.
+  destruct value; [congruence|]. reflexivity.
+Qed.
